@@ -26,11 +26,12 @@ import (
 
 // X01: MiniTmpl, the reference semantics of the template language's control constructs
 // (spec/tmplsem). Case {id, fam, fmt, pre, glob, tree, src, shape}: src is the source text
-// (bytes) of tree, written by the TLA+ printer; pre names the prelude and epilogue that
-// every template starts and ends with, whose texts TLC exported once (-frame file:
-// {pre, head, tail}); glob lists the globals the host declares ([{n, t: "str"|"int",
-// s: bytes, i}]). The driver builds head+src+tail as index.<fmt> with those globals, runs
-// it into a buffer and logs what happened: outcome "ok" (out = the bytes
+// (bytes) of tree, written by the TLA+ printer; lay names the layout: the files that the
+// template is spread over (single file, import, extends, render), whose fixed texts TLC
+// exported once (-frame file: {lay, fmt, files: [{name, head, tail, hole}]}); glob lists the
+// globals the host declares ([{n, t: "str"|"int", s: bytes, i}]). The driver writes the
+// files of the layout (head+src+tail for the file with the hole), builds the first one with
+// those globals, runs it into a buffer and logs what happened: outcome "ok" (out = the bytes
 // written), "builderror", "runerror", "hostpanic" or "timeout", with the error text in msg.
 // tree, pre, glob are echoed untouched for the judge (Trace_TmplSem.tla). It judges nothing
 // and computes no expected value.
@@ -44,10 +45,17 @@ type glob struct {
 
 var flagFrame = flag.String("frame", "", "ndjson of {pre, head, tail}: the texts around every template")
 
-type frame struct {
-	Pre  string `json:"pre"`
+type frameFile struct {
+	Name string `json:"name"`
 	Head []int  `json:"head"`
 	Tail []int  `json:"tail"`
+	Hole bool   `json:"hole"`
+}
+
+type frame struct {
+	Lay   string      `json:"lay"`
+	Fmt   string      `json:"fmt"`
+	Files []frameFile `json:"files"`
 }
 
 var (
@@ -55,30 +63,31 @@ var (
 	frames     = map[string]frame{}
 )
 
-func frameOf(pre string) frame {
+func frameOf(lay, ext string) frame {
 	framesOnce.Do(func() {
 		lines, err := drv.ReadLines(*flagFrame)
 		drv.Must(err)
 		for _, l := range lines {
 			var f frame
 			drv.Must(json.Unmarshal(l, &f))
-			frames[f.Pre] = f
+			frames[f.Lay+"."+f.Fmt] = f
 		}
 	})
-	return frames[pre]
+	return frames[lay+"."+ext]
 }
 
 type x01Case struct {
 	ID   int             `json:"id"`
 	Fam  string          `json:"fam"`
 	Fmt  string          `json:"fmt"`
+	Lay  string          `json:"lay"`
 	Pre  string          `json:"pre"`
 	Glob []glob          `json:"glob"`
 	Tree json.RawMessage `json:"tree"`
 	Src  []int           `json:"src"`
 }
 
-func runOne(src []byte, ext string, globs []glob) (outcome string, out []byte, msg string) {
+func runOne(files scriggo.Files, name string, globs []glob) (outcome string, out []byte, msg string) {
 	defer func() {
 		if r := recover(); r != nil {
 			// (%T only: the Error method of an internal scriggo value may not terminate)
@@ -98,8 +107,7 @@ func runOne(src []byte, ext string, globs []glob) (outcome string, out []byte, m
 			decl[g.N] = &i
 		}
 	}
-	name := "index." + ext
-	t, err := scriggo.BuildTemplate(scriggo.Files{name: src}, name, &scriggo.BuildOptions{Globals: decl})
+	t, err := scriggo.BuildTemplate(files, name, &scriggo.BuildOptions{Globals: decl})
 	if err != nil {
 		return "builderror", nil, err.Error()
 	}
@@ -131,11 +139,22 @@ func each(raw json.RawMessage) map[string]any {
 		}
 	}
 	src := drv.BytesOf(c.Src)
-	f := frameOf(c.Pre)
-	whole := append(append(drv.BytesOf(f.Head), src...), drv.BytesOf(f.Tail)...)
-	outcome, out, msg := runOne(whole, c.Fmt, c.Glob)
+	// the files of the layout: the file with the hole is head + src + tail, the others are head; the first one is the entry
+	files := scriggo.Files{}
+	entry := ""
+	for _, f := range frameOf(c.Lay, c.Fmt).Files {
+		b := drv.BytesOf(f.Head)
+		if f.Hole {
+			b = append(append(b, src...), drv.BytesOf(f.Tail)...)
+		}
+		files[f.Name+"."+c.Fmt] = b
+		if entry == "" {
+			entry = f.Name + "." + c.Fmt
+		}
+	}
+	outcome, out, msg := runOne(files, entry, c.Glob)
 	return map[string]any{
-		"id": c.ID, "fam": c.Fam, "fmt": c.Fmt, "pre": c.Pre, "glob": c.Glob, "tree": c.Tree,
+		"id": c.ID, "fam": c.Fam, "fmt": c.Fmt, "lay": c.Lay, "pre": c.Pre, "glob": c.Glob, "tree": c.Tree,
 		"src": drv.Ints(src), "outcome": outcome, "out": drv.Ints(out), "msg": msg,
 	}
 }
@@ -291,7 +310,7 @@ func parent(in, out string) error {
 				}
 			}
 			b, err := json.Marshal(map[string]any{
-				"id": c.ID, "fam": c.Fam, "fmt": c.Fmt, "pre": c.Pre, "glob": c.Glob, "tree": c.Tree,
+				"id": c.ID, "fam": c.Fam, "fmt": c.Fmt, "lay": c.Lay, "pre": c.Pre, "glob": c.Glob, "tree": c.Tree,
 				"src": c.Src, "outcome": "hostfatal", "out": []int{}, "msg": f,
 			})
 			drv.Must(err)
